@@ -15,7 +15,7 @@ def e2e(rng, subprocess_c_locale):
     pr = rwcommon.gen_ok_project(rng, ascii_names=subprocess_c_locale)
     pr["variants"] = True          # implicit self pattern, non-normalised file keys (see projgen.gen_project)
     case = {"vp": pr["vp"], "old": pr["old"], "new": pr["new"], "files": pr["files"], "file_patterns": pr["file_patterns"],
-            "implicit_self": pr["implicit_self"], "key_alias": pr["key_alias"],
+            "implicit_self": pr["implicit_self"], "key_alias": pr["key_alias"], "glob_self": pr["glob_self"],
             "c_locale_subprocess": subprocess_c_locale, "date": pr["date"], "flags": pr["flags"]}
     with rwcommon.setup(pr) as p:
         before = p.snapshot()
